@@ -949,3 +949,7 @@ pub(crate) fn merge_nodes(
     }
     Ok(node)
 }
+
+#[cfg(kani)]
+#[path = "/verif/harness/blob_tree.rs"]
+pub(crate) mod verif_harness;
